@@ -165,6 +165,88 @@ def run(chk):
     if not vchk:
         chk.violation(r_es, "reader:vectors", "ExtESmry no longer addresses vectors by the array name V<n>", rd["file"], None)
 
+    # ---- C10.seek: direct seeks of ESmry::loadData(vectList)
+    r_sk = chk.rule("C10.seek", "ESmry::loadData(vectList): the per-value seek arithmetic is consistent with the record layout (formatted: a stride of D values is D x width + D / columns characters with D the divisor used for block count and remainder; unformatted: 4 + 8 per full block + 4 x position)", floor=4)
+    consts = {}
+    fh = chk.facts(["opm/io/eclipse/ESmry.cpp"], files_re="^/repo/opm/io/eclipse/EclIOdata.hpp$", fn_re="^$")
+    for v in fh.vars:
+        if v["file"].endswith("EclIOdata.hpp") and "ev" in v:
+            consts[v["n"]] = int(v["ev"])
+    lds = [f for f in fx.fn("Opm::EclIO::ESmry::loadData") if len(f["params"]) == 1 and f.get("body")]
+    if len(lds) != 1:
+        raise core.AnalysisBroken("ESmry::loadData(vectList) not found")
+    ld1 = lds[0]
+    env = {}
+    asg = {}
+    for n in walk(ld1["body"]):
+        if n["k"] == "Decl":
+            for v in n["vars"]:
+                if v.get("init") is not None:
+                    env[v["n"]] = v["init"]
+        if n["k"] == "Bin" and n["op"] == "=" and strip(n["c"][0]).get("k") == "Ref":
+            asg.setdefault(strip(n["c"][0])["n"], []).append(n["c"][1])
+
+    from verif.tree import decast
+
+    def cval(e, depth=0):
+        """integer value of an expression over the layout constants and constant locals, or None"""
+        e = strip(decast(e))
+        if "ev" in e:
+            return int(e["ev"])
+        if e["k"] == "Int":
+            return int(e["v"])
+        if e["k"] == "Ref":
+            if e["n"] in consts:
+                return consts[e["n"]]
+            if e["n"] in env and depth < 4:
+                return cval(env[e["n"]], depth + 1)
+            return None
+        if e["k"] == "Bin" and e["op"] in ("+", "-", "*", "/", "%"):
+            a, b = cval(e["c"][0], depth), cval(e["c"][1], depth)
+            if a is None or b is None:
+                return None
+            return {"+": a + b, "-": a - b, "*": a * b, "/": a // b if b else None, "%": a % b if b else None}[e["op"]]
+        return None
+    for need in ("nBlocks", "sizeOfLastBlock", "nLines"):
+        if need not in env:
+            raise core.AnalysisBroken("ESmry::loadData(vectList): local %s vanished" % need)
+    nb, sl = strip(decast(env["nBlocks"])), strip(decast(env["sizeOfLastBlock"]))
+    if not (nb["k"] == "Bin" and nb["op"] == "/" and show(strip(nb["c"][0])) == "paramPos" and sl["k"] == "Bin" and sl["op"] == "%" and show(strip(sl["c"][0])) == "paramPos"):
+        raise core.AnalysisBroken("ESmry::loadData(vectList): block count / remainder are no longer paramPos / D and paramPos % D")
+    D1, D2 = cval(nb["c"][1]), cval(sl["c"][1])
+    stride = cval(asg["blockSize_f"][0]) if asg.get("blockSize_f") else None
+    W, C, NB = consts.get("columnWidthReal"), consts.get("numColumnsReal"), consts.get("MaxNumBlockReal")
+    chk.instance(r_sk, "formatted:divisor", sample=dict(block_divisor=D1, remainder_divisor=D2, stride_chars=stride, width=W, columns=C))
+    if None in (D1, D2, stride, W, C, NB):
+        raise core.AnalysisBroken("ESmry::loadData(vectList): formatted seek constants could not be evaluated")
+    if D1 != D2:
+        chk.violation(r_sk, "formatted:divisor", "block count uses paramPos / %d but the remainder paramPos %% %d" % (D1, D2), ld1["file"], ld1["l"])
+    if D1 % C != 0 or D1 % NB != 0:
+        chk.violation(r_sk, "formatted:regular", "%d values is not a whole number of %d-value blocks and %d-column lines: positions inside it are not uniform" % (D1, NB, C), ld1["file"], ld1["l"])
+    chk.instance(r_sk, "formatted:stride", sample=dict(stride=stride, expected=D1 * W + D1 // C))
+    if stride != D1 * W + D1 // C:
+        chk.violation(r_sk, "formatted:stride", "positions are computed in groups of %d values (paramPos / %d) but one group is taken to occupy %d characters; %d values occupy %d x %d + %d line breaks = %d" % (D1, D1, stride, D1, D1, W, D1 // C, D1 * W + D1 // C), ld1["file"], ld1["l"])
+    inner = [show(decast(x)) for x in asg.get("elementPos", [])]
+    nl = show(decast(env["nLines"]))
+    okf = nl == "(sizeOfLastBlock / Opm::EclIO::numColumnsReal)" and any("(nBlocks * blockSize_f)" in x for x in inner) and any(
+        x.replace(" ", "") == "((stepFilePos+elementPos)+((sizeOfLastBlock*Opm::EclIO::columnWidthReal)+nLines))" for x in inner)
+    chk.instance(r_sk, "formatted:formula", sample=dict(nLines=nl, elementPos=inner))
+    if not okf:
+        chk.violation(r_sk, "formatted:formula", "the formatted element position is no longer step + nBlocks x stride + rest x width + rest / columns: nLines = %s, elementPos = %s" % (nl, inner), ld1["file"], ld1["l"])
+    # unformatted
+    nfb = show(decast(env["nFullBlocks"])) if "nFullBlocks" in env else None
+    ep0 = None
+    for n in walk(ld1["body"]):
+        if n["k"] == "Decl":
+            for v in n["vars"]:
+                if v["n"] == "elementPos" and v.get("init") is not None and "nFullBlocks" in show(v["init"]):
+                    ep0 = show(decast(v["init"]))
+    adds = [show(decast(n["c"][1])) for n in walk(ld1["body"]) if n["k"] == "Bin" and n["op"] == "+=" and show(n["c"][0]) == "elementPos"]
+    chk.instance(r_sk, "unformatted", sample=dict(nFullBlocks=nfb, elementPos=ep0, add=adds))
+    if nfb != "(paramPos / (Opm::EclIO::MaxBlockSizeReal / Opm::EclIO::sizeOfReal))" or ep0 != "(((2 * nFullBlocks) + 1) * Opm::EclIO::sizeOfInte)" or \
+            [a.replace(" ", "") for a in adds] != ["((paramPos*Opm::EclIO::sizeOfReal)+stepFilePos)"]:
+        chk.violation(r_sk, "unformatted", "the unformatted element position is no longer (2 x full blocks + 1) x 4 + position x 4 + step with full blocks = position / (4000 / 4): nFullBlocks = %s, elementPos = %s += %s" % (nfb, ep0, adds), ld1["file"], ld1["l"])
+
     # ---- C10.nums
     r_nu = chk.rule("C10.nums", "combineSummaryNumbers and splitSummaryNumber are mutually inverse encodings (n1 + 2^15 (n2 + 10))", floor=2)
     cb = fx.fn1("Opm::EclIO::combineSummaryNumbers")
